@@ -207,7 +207,7 @@ def probe_esc_xor(hdlc, problems):
 
 
 def one(xs, what, problems, name, default=0):
-    xs = list(xs)
+    xs = list(dict.fromkeys(xs))        # the same value spelled twice (a literal and a named constant) is one value
     if len(xs) != 1:
         problems.append(f"{name}: {what}: expected exactly one literal, found {xs}")
         return xs[0] if xs else default
